@@ -94,7 +94,8 @@ def replay_state(chk, rec, n):
         adv_units = max(c["width"], round(em * im["w"] / im["h"]))
         left_want = (adv_units - em * im["w"] / im["h"]) / 2 * s
         proportional = c["width"] == 0 or im["w"] == im["h"]
-        slack = im["w"] / (2 * rec["ppem"]) if rec["ppem"] else 0
+        # ppem is rounded: lengths scaled by it carry a relative error of 1 / (2 ppem) - Bitmap.tla PpemSlack(widthPx)
+        slack = rec["widthPx"] / (2 * rec["ppem"]) if rec["ppem"] else 0
         if fmt == "cbdt":
             cblc, cbdt = f2["CBLC"], f2["CBDT"]
             # strikes partition the bitmap glyphs into maximal runs of consecutive ids
@@ -143,7 +144,8 @@ def replay_state(chk, rec, n):
                     continue
                 if abs(gl.originOffsetY - c["desc"] * s) > 1 + 1e-9:
                     chk.violation(f"sbix: originOffsetY {gl.originOffsetY} vs scaled descender {c['desc'] * s:.2f}", replay)
-                if proportional and abs(gl.originOffsetX - left_want) > 1 + slack + 1e-9 and gl.originOffsetX < 127:
+                # int16 in sbix: nothing is clamped; the shared int8 nudge moves a value of exactly 128 to 127 (one more pixel)
+                if proportional and abs(gl.originOffsetX - left_want) > 1 + slack + (1 if gl.originOffsetX == 127 else 0) + 1e-9:
                     chk.violation(f"sbix: originOffsetX {gl.originOffsetX} but the bitmap's box starts at {left_want:.2f} px", replay)
 
 
